@@ -1282,11 +1282,28 @@ func max(a, b int) int {
 
 // Run executes one generated case. nops = number of operations after Init.
 func (r *Runner) Run(nops int, baseID int64) {
+	// a panic inside the code under test is an observation about that code, not a harness failure
+	defer func() {
+		if p := recover(); p != nil {
+			active = nil
+			r.report("live-panic", "the log implementation panicked while executing an operation sequence without any fault",
+				map[string]interface{}{"panic": fmt.Sprint(p), "ops": r.desc.String()})
+		}
+	}()
+	r.run(nops, baseID)
+}
+
+func (r *Runner) safeClose() {
+	defer func() { recover() }()
+	r.Close()
+}
+
+func (r *Runner) run(nops int, baseID int64) {
 	rng := r.rng
 	if !r.Init() {
 		return
 	}
-	defer r.Close()
+	defer r.safeClose()
 	next := func() int64 {
 		if r.or.empty() {
 			return baseID
